@@ -1,7 +1,14 @@
-"""C14 - see DESIGN.md §7 C14; processor family."""
-from checks import proccommon
+"""C14 - see DESIGN.md §7 C14; processor family. Whv/Gen/Proc.lean (Run's select arms, cleanup thresholds) is regenerated here."""
+from checks import proccommon, procgen
+
+
+def gen(ctx):
+    return procgen.gen(ctx)
 
 
 def run(ctx):
-    ctx.prove(families=("processor",))
+    facts = gen(ctx)
+    ctx.cov["gen_facts"] = facts
+    if facts is not None:
+        ctx.prove(families=("processor",))
     proccommon.run_processor(ctx, "C14", "")
